@@ -30,4 +30,10 @@ CLAIMED['C09'] = dict(
     technique='AST->z3 integer translation of get_chroma/to_transposed with live tables (unsat for all octaves) + CrossHair-engine enumeration of the spelling grid',
     design='5 C09')
 
+CLAIMED['C07'] = dict(
+    text=BMC + 'C07: from_measure and to_measure are UNBOUNDED symbolic integers (one path covers a whole class such as a<0 or b>M), score shapes (measure count, rows per measure, opening barline, pickup, final barline, 1-2 kern spines, optional text spine) are solver-enumerated; the export is compared line by line with a text-level measure model; partition of data lines and iteration 1..M per shape.',
+    note=NOTE + 'Symbolic numbers are rendered opaquely inside kernpy\'s error messages (tripwire-guarded shim). Null cells before the first barline and from_measure=0 are outside the claim.',
+    technique='symbolic execution (CrossHair engine + z3) of export_string/export_options_validator with symbolic integer range over solver-enumerated score shapes',
+    design='5 C07')
+
 PENDING_REASON = 'check under construction in this session (to be claimed; see DESIGN.md section 5)'
